@@ -7,7 +7,7 @@
     yields exactly [H ++ data] -- i.e. literal runs and matches tile the block, and every match equals the bytes at its
     distance for its whole length ([C17_copied_bytes_equal_bytes_at_distance] spells that out) -- and [apply_seq]
     refuses any distance larger than the bytes before the match.  Nothing depends on the hash function. *)
-Require Import Zrs.lib.RsPrelude Zrs.model.BlockDec Zrs.model.Matcher Zrs.proofs.C17_Matcher Zrs.proofs.C17_Shape.
+Require Import Zrs.lib.RsPrelude Zrs.model.BlockDec Zrs.model.Matcher Zrs.proofs.C17_Matcher Zrs.proofs.C17_Shape Zrs.model.MatcherChunks Zrs.proofs.C17_Chunks.
 Open Scope nat_scope.
 
 Theorem C17_all_histories : forall slice_size slices ops,
@@ -65,7 +65,26 @@ Theorem C17_block_report_shape : forall d data d' seqs,
   exists ts tail, seqs = ts ++ tail /\ Forall is_triple ts /\ (tail = [] \/ exists l, tail = [MLit l]).
 Proof. exact mstep_block_shape. Qed.
 
+
+(** the source's [common_prefix_len] compares 8-byte chunks first ([mismatch_chunks::<8>], model/MatcherChunks.v) and
+    then single bytes; for every chunk length and all slices that is the byte-wise common-prefix length the matcher
+    model (and every theorem above) uses *)
+Theorem C17_chunked_compare_is_the_common_prefix_length : forall N xs ys, 0 < N ->
+  mismatch_chunks N xs ys = common_prefix xs ys.
+Proof. exact mismatch_chunks_is_common_prefix. Qed.
+
+Theorem C17_common_prefix_len_of_the_source : forall a b, common_prefix_len a b = common_prefix a b.
+Proof. exact common_prefix_len_is_common_prefix. Qed.
+
+(** the fuel of [equal_chunks] (the slice length) never cuts the count short, and the counted chunks lie inside the slice *)
+Theorem C17_chunk_count_not_cut_by_fuel : forall N fuel xs ys, 0 < N -> length xs <= fuel ->
+  equal_chunks N fuel xs ys = equal_chunks N (S fuel) xs ys /\ equal_chunks N fuel xs ys * N <= length xs.
+Proof. intros N fuel xs ys HN Hl. split; [apply fuel_enough; assumption|apply equal_chunks_le; exact HN]. Qed.
+
 Print Assumptions C17_block_report_shape.
+Print Assumptions C17_chunked_compare_is_the_common_prefix_length.
+Print Assumptions C17_common_prefix_len_of_the_source.
+Print Assumptions C17_chunk_count_not_cut_by_fuel.
 Print Assumptions C17_all_histories.
 Print Assumptions C17_every_step.
 Print Assumptions C17_block.
